@@ -67,11 +67,21 @@ def _eq(a, b):
     return a is b or a == b
 
 
-def check_name(tab, name, spelled):
-    """M[spelled] == M.get(spelled) == getattr(M, name); spelled in M."""
+def check_name(tab, name, spelled, order="item-first"):
+    """M[spelled] == M.get(spelled) == getattr(M, name); spelled in M.  `order` decides which kind of lookup sees a spelling
+    first (a lookup must not depend on what was looked up before)."""
     discs = []
     tn = tab.__name__
     want = getattr(tab, name)
+    if order != "item-first":
+        try:
+            first = tab.get(spelled, _SENT) if order == "get-default-first" else (spelled in tab)
+        except Exception as e:
+            return [Disc(f"name.{order}.exc.{tn}", f"{tn}: {order} lookup of {spelled!r} raised {e!r}")]
+        if order == "get-default-first" and (first is _SENT or not _eq(first, want)):
+            return [Disc(f"name.get-default.fresh.{tn}", f"{tn}.get({spelled!r}, default) on a spelling not looked up before returned {'the default' if first is _SENT else repr(first)}, member {name} = {want!r}")]
+        if order == "contains-first" and not first:
+            return [Disc(f"name.contains.fresh.{tn}", f"{spelled!r} in {tn} is False on a spelling not looked up before")]
     try:
         got = tab[spelled]
     except KeyError:
@@ -239,8 +249,8 @@ def run_job(ctx, job):
         tab = tabs[job["table"]]
         tn = tab.__name__
         for name in members_of(tab):
-            for sp in casings(name):
-                discs = check_name(tab, name, sp)
+            for k, sp in enumerate(casings(name)):
+                discs = check_name(tab, name, sp, ["item-first", "get-default-first", "contains-first"][k % 3] if sp != name else "item-first")
                 trivial = sp == name == name.lower()
                 ctx.case(("name", tn, sp), not trivial, ["name-lookup"],
                          sample={"table": tn, "member": name, "spelled": sp})
@@ -293,7 +303,8 @@ def _random_part(ctx, job, tabs):
             ti, name = draw(st.sampled_from(names))
             mask = draw(st.lists(st.booleans(), min_size=len(name), max_size=len(name)))
             sp = "".join(c.upper() if m else c.lower() for c, m in zip(name, mask))
-            return {"kind": "casing", "table": tabs[ti].__name__, "member": name, "spelled": sp}
+            return {"kind": "casing", "table": tabs[ti].__name__, "member": name, "spelled": sp,
+                    "order": draw(st.sampled_from(["item-first", "get-default-first", "contains-first"]))}
         ti = draw(st.integers(0, len(tabs) - 1))
         x = draw(st.one_of(
             st.text(alphabet="abcXYZ_019 ", max_size=12),
@@ -307,7 +318,7 @@ def _random_part(ctx, job, tabs):
     def check_case(case):
         tab = next(t for t in tabs if t.__name__ == case["table"])
         if case["kind"] == "casing":
-            return check_name(tab, case["member"], case["spelled"]), True, ["name-lookup", "drawn-casing"]
+            return check_name(tab, case["member"], case["spelled"], case.get("order", "item-first")), True, ["name-lookup", "drawn-casing"]
         return check_membership(tab, case["x"]), True, ["membership"]
 
     hyp_search(ctx, "random", cases(), check_case, job["examples"])
@@ -327,7 +338,7 @@ def replay(ctx, kind, case):
         return check_from_reply(case["code"])
     if kind == "random":
         if case["kind"] == "casing":
-            return check_name(tabs[case["table"]], case["member"], case["spelled"])
+            return check_name(tabs[case["table"]], case["member"], case["spelled"], case.get("order", "item-first"))
         return check_membership(tabs[case["table"]], case["x"])
     raise ValueError(kind)
 
